@@ -64,6 +64,7 @@ fn main() {
     install_panic_hook();
     let code = match id.as_str() {
         "C01" => dispatch(props::c01::C01, &cfg, &replay),
+        "C02" => dispatch(props::c02::C02, &cfg, &replay),
         "C03" => dispatch(props::c03::C03, &cfg, &replay),
         "C04" => dispatch(props::c04::EditProp(props::c04::Which::C04, Default::default()), &cfg, &replay),
         "C05" => dispatch(props::c04::EditProp(props::c04::Which::C05, Default::default()), &cfg, &replay),
